@@ -23,7 +23,11 @@ def retain : P Verdict := do
   | "ok" => do
     let r' ← P.registry
     let m ← P.list (do let a ← P.nat; let b ← P.nat; pure (a, b))
+    let canon ← P.nat
     let errs := if Spec.wf r then Spec.retainOk r keep r' m else []
+    -- `C10canon.retain_canonical`: the result of a retain on a well-formed registry is in canonical numbering
+    let errs := if Spec.wf r && errs.isEmpty && canon != 1 then
+      ["C10: retaining everything from the result once more is not the identity (the result is not in canonical depth-first numbering)"] else errs
     if !errs.isEmpty then pure (.specfail (" ;; ".intercalate errs))
     else match model with
       | none => pure (.diff "model panics / runs out of fuel, implementation returns")
